@@ -68,6 +68,11 @@ def teardown(ctx):
 
 
 def gen_case(rng, ctx):
+    if rng.random() < 0.01:
+        # a query that fails INSIDE the store's read (an event whose end lies beyond the last representable instant cannot be
+        # handed out), issued while writes are still pending
+        return dict(kind="failing-read", backend=_S["backend"], pending=rng.randrange(1, 6), bulk=rng.random() < 0.4,
+                    edge=rng.choice(["ends-past-the-last-instant", "re-timed-past-the-last-instant"]), fn=rng.choice(["query_bucket", "query_bucket", "flood"]))
     g = qlang.ProgGen(rng, max_depth=rng.choice([2, 3, 4]), mutating_bias=True)
     prog = g.program()
     fail = None
@@ -117,8 +122,64 @@ def gen_case(rng, ctx):
                 spacing_seed=rng.randrange(2**32), backend=_S["backend"], data_key=_S["key"][1], base=_S["base"])
 
 
+def _failing_read_case(case, ctx):
+    """A store of its own: bucket 'plain' with flushed events and `pending` more that no read has flushed, bucket 'edge' with one
+    event that cannot be read back. The query reads 'edge' and fails in the store; 'plain' must hold everything written."""
+    import aw_query
+    from datetime import datetime, timedelta, timezone
+    from aw_core.models import Event
+    from ..gen import mk_event
+    backend = case["backend"]
+    viols = []
+    with Store(backend, ctx.tmp) as st:
+        ds = st.ds
+        plain = ds.create_bucket("plain", type="t", client="c", hostname="h")
+        edge = ds.create_bucket("edge", type="t", client="c", hostname="h")
+        last = datetime(9999, 12, 31, 23, 59, 59, 999000, tzinfo=timezone.utc)
+        if case["edge"] == "ends-past-the-last-instant":
+            edge.insert(Event(timestamp=last, duration=timedelta(microseconds=999), data={"edge": 1}))
+        else:
+            r = edge.insert(Event(timestamp=last - timedelta(days=1), duration=timedelta(seconds=1), data={"edge": 1}))
+            edge.replace(r.id, Event(timestamp=last - timedelta(days=1), duration=timedelta(days=2), data={"edge": 2}))
+        plain.insert([mk_event(dict(ts=10**15 + i * 10**6, dur=1000, data={"uid": i})) for i in range(3)])
+        plain.get(1)                                    # (a read: everything so far is flushed)
+        want = {0, 1, 2}
+        evs = [mk_event(dict(ts=10**15 + (10 + i) * 10**6, dur=1000, data={"uid": 10 + i})) for i in range(case["pending"])]
+        if case["bulk"]:
+            plain.insert(evs)
+        else:
+            for e in evs:
+                plain.insert(e)
+        want |= {10 + i for i in range(case["pending"])}
+        inner = 'query_bucket("edge")'
+        text = f"RETURN = {inner};" if case["fn"] == "query_bucket" else f"x = {inner}; RETURN = flood(x);"
+        outcome = "value"
+        try:
+            # (the window ends one millisecond before the last one: Bucket.get rounds its end up to the next millisecond)
+            aw_query.query("q", text, last - timedelta(days=3), last - timedelta(milliseconds=1), ds)
+        except Exception as ex:  # noqa: BLE001
+            outcome = type(ex).__name__
+            ctx.count("failing_queries")
+            ctx.count("queries_failing_inside_the_stores_read")
+        ctx.count(f"queries.{backend}")
+        got = sorted(e.data.get("uid") for e in plain.get(-1))
+        if got != sorted(want):
+            viols.append((f"{backend}:query-changed-bucket-events",
+                          f"a query that ended in {outcome} while reading bucket 'edge' left bucket 'plain' with uids {got}, written (and acknowledged) before it: {sorted(want)}"))
+    return viols, dict(sig=(backend, "failing-read", outcome != "value", case["edge"]), nontrivial=outcome != "value")
+
+
 def run_case(case, ctx):
     import aw_query
+    if case.get("kind") == "failing-read":
+        try:
+            return _failing_read_case(case, ctx)
+        finally:
+            st0 = _S.get("st")
+            if st0 is not None and st0.backend == "peewee":
+                # peewee's database object is a module global: hand it back to the worker's long-lived store
+                st0.storage.db.init(st0.path)
+                st0.storage.db.connect(reuse_if_open=True)
     _ensure(ctx, case["backend"], case["data_key"])
     reg, ds, backend = _S["reg"], _S["st"].ds, _S["backend"]
     shift = _S["base"] - case.get("base", _S["base"])      # (a replay of a case whose data lies around "now")
